@@ -4,6 +4,7 @@ package main
 // (InitChain / BeginBlock / DeliverTx / EndBlock / Commit / Query) with real signatures and real stores.
 
 import (
+	storetypes "github.com/cosmos/cosmos-sdk/store/types"
 	txtypes "github.com/cosmos/cosmos-sdk/types/tx"
 	"bytes"
 	"encoding/json"
@@ -493,7 +494,15 @@ func queryErrClass(res abci.ResponseQuery) string {
 // DumpStore returns the raw key/value pairs of a module store (deliver state inside a block).
 func (c *Chain) DumpStore(name string) [][2][]byte {
 	ctx := c.Ctx()
-	st := ctx.KVStore(c.App.GetKey(name))
+	var key storetypes.StoreKey
+	if k := c.App.GetKey(name); k != nil {
+		key = k
+	} else if mk := c.App.GetMemKey(name); mk != nil {
+		key = mk // (a module store mounted as a memory store: still readable, but it will not survive a restart)
+	} else {
+		return nil
+	}
+	st := ctx.KVStore(key)
 	it := st.Iterator(nil, nil)
 	defer it.Close()
 	var out [][2][]byte
